@@ -41,7 +41,9 @@ namespace plan
     Op op;
     op.name = name;
     const int K = 8;
-    if (name == "class")
+    if (name == "real")
+      op.a = {static_cast<long>(r.below(6))}; // 5: declared `int` (the reader makes it an arithmetic variable of type int; no integrality is enforced or assumed)
+    else if (name == "class")
       op.a = {static_cast<long>(r.below(4)), static_cast<long>(r.below(3)), static_cast<long>(r.below(5)), static_cast<long>(r.chance(1, 3) ? 1 : 0), 0, static_cast<long>(r.chance(1, 2) ? r.below(16) : 0)};
     else if (name == "inst")
     {
